@@ -5,7 +5,7 @@ import ast
 
 from sa.astx import call_attr, call_name, dotted, src, walk_local
 from sa.selftest import Mutant, Silent
-from sa.props._lib_j import body_always_entered, normalise, run_sections, all_paths, edge_asserts, local_defs, no_exc, node_calls, normal_exits, params, resolve, rsrc
+from sa.props._lib_j import leaf_values, body_always_entered, normalise, run_sections, all_paths, edge_asserts, local_defs, no_exc, node_calls, normal_exits, params, resolve, rsrc
 
 PROPERTY = "C52"
 FP = "python/filepath.py"
@@ -196,7 +196,9 @@ def _s_temporary(ctx, S):
                       "the temporary's name has no random component: it can equal the final name or collide with a concurrent writer's temporary")
             last = val.args[0].right if isinstance(val.args[0], ast.BinOp) and isinstance(val.args[0].op, ast.Add) else None
             extp = params(ft)[1]
-            ends_ext = isinstance(last, ast.Name) and (last.id == extp or any(d is not None and src(d) == extp for d in dt.get(last.id, [])))
+            # the suffix is the requested extension itself, or a local that takes it on some path (the other paths supply the empty default)
+            ends_ext = (isinstance(last, ast.Name) and (last.id == extp or any(d is not None and src(d) == extp for d in dt.get(last.id, [])))) or \
+                (last is not None and any(isinstance(v, ast.Name) and v.id == extp for v, _, _ in leaf_values(ft, last)))
             ctx.check("basename()" in txt and ends_ext, "temporary/extension-suffix", qt,
                       "the temporary's name does not end with the requested extension (crash leftovers cannot be identified by suffix)")
         rc = node_calls(gt, lambda c: call_name(c) == name + ".requireCreate")
@@ -469,6 +471,11 @@ MUTANTS = [
     Mutant("sob-unconditional-remove", SOB, "        if runtime.platformType == \"win32\" and os.path.isfile(finalname):", "        if os.path.isfile(finalname):", expect_rule="replace/final-removed-only-on-windows"),
     Mutant("temporary-without-random", FP, "            _secureEnoughString(ourPath) + self.clonePath(ourPath).basename() + ext", "            self.clonePath(ourPath).basename() + ext",
            expect_rule="temporary/unpredictable-name"),
+    # ---- round-3 shapes: the replacement protocol kept in a private @contextmanager generator, the extension default as a conditional expression
+    Mutant("context-manager-renames-in-finally", FP, '        sib = self.temporarySibling(ext)\n        with sib.open("w") as f:\n            f.write(content)\n        if platform.isWindows() and exists(self.path):\n            os.unlink(self.path)\n        os.rename(sib.path, self.asBytesMode().path)\n', '        with self._replacing(ext) as out:\n            out.write(content)\n\n    @contextmanager\n    def _replacing(self, ext):\n        sib = self.temporarySibling(ext)\n        try:\n            with sib.open("w") as f:\n                yield f\n        finally:\n            if platform.isWindows() and exists(self.path):\n                os.unlink(self.path)\n            os.rename(sib.path, self.asBytesMode().path)\n', expect_rule="replace/write-failure-propagates"),
+    Mutant("sob-context-manager-removes-final-before-the-body", SOB, '        self._saveTemp(filename, dumpFunc)\n        if runtime.platformType == "win32" and os.path.isfile(finalname):\n            os.remove(finalname)\n        os.rename(filename, finalname)\n', '        with self._swappedIn(filename, finalname):\n            self._saveTemp(filename, dumpFunc)\n', expect_rule="replace/final-removed-only-after-write",
+           more=[(SOB, "    def save(self, ", '    @contextmanager\n    def _swappedIn(self, temporary, final):\n        if runtime.platformType == "win32" and os.path.isfile(final):\n            os.remove(final)\n        yield\n        os.rename(temporary, final)\n\n    def save(self, ')]),
+    Mutant("extension-conditional-never-takes-the-extension", FP, "        if extension is None:\n            # It's not possible to provide a default type argument which is why\n            # the overload is required.\n            ext = self.path[0:0]  # type:ignore[assignment]\n        else:\n            ext = extension\n", "        ext = self.path[0:0] if extension is None else self.path[0:0]\n", expect_rule="temporary/extension-suffix"),
 ]
 SILENT = [
     Silent("rename-local", FP, "        sib = self.temporarySibling(ext)\n        with sib.open(\"w\") as f:\n            f.write(content)\n        if platform.isWindows() and exists(self.path):\n            os.unlink(self.path)\n        os.rename(sib.path, self.asBytesMode().path)",
@@ -493,4 +500,7 @@ SILENT = [
     Silent("os-replace", SOB, "        os.rename(filename, finalname)\n", "        os.replace(filename, finalname)\n"),
     Silent("sob-nested-platform-test", SOB, "        if runtime.platformType == \"win32\" and os.path.isfile(finalname):\n            os.remove(finalname)\n",
            "        if runtime.platformType == \"win32\":\n            if os.path.isfile(finalname):\n                os.remove(finalname)\n"),
+    Silent("setContent-through-a-private-context-manager", FP, '        sib = self.temporarySibling(ext)\n        with sib.open("w") as f:\n            f.write(content)\n        if platform.isWindows() and exists(self.path):\n            os.unlink(self.path)\n        os.rename(sib.path, self.asBytesMode().path)\n', '        with self._replacing(ext) as out:\n            out.write(content)\n\n    @contextmanager\n    def _replacing(self, ext):\n        sib = self.temporarySibling(ext)\n        with sib.open("w") as f:\n            yield f\n        if platform.isWindows() and exists(self.path):\n            os.unlink(self.path)\n        os.rename(sib.path, self.asBytesMode().path)\n'),
+    Silent("sob-rename-in-a-private-context-manager", SOB, '        self._saveTemp(filename, dumpFunc)\n        if runtime.platformType == "win32" and os.path.isfile(finalname):\n            os.remove(finalname)\n        os.rename(filename, finalname)\n', '        with self._swappedIn(filename, finalname):\n            self._saveTemp(filename, dumpFunc)\n', more=[(SOB, "    def save(self, ", '    @contextmanager\n    def _swappedIn(self, temporary, final):\n        yield\n        if runtime.platformType == "win32" and os.path.isfile(final):\n            os.remove(final)\n        os.rename(temporary, final)\n\n    def save(self, ')]),
+    Silent("extension-default-as-conditional-expression", FP, "        if extension is None:\n            # It's not possible to provide a default type argument which is why\n            # the overload is required.\n            ext = self.path[0:0]  # type:ignore[assignment]\n        else:\n            ext = extension\n", "        ext = extension if extension is not None else self.path[0:0]\n"),
 ]
